@@ -16,7 +16,7 @@ RULE = ("exhaustive tables: clique_equation(tau) for tau=2..7 (quick) / 2..9 wit
         "by brute force for n<=5/6). Hypothesis-generated: call histories of clique_equation with neighbour values "
         "drawn from a small pool (repeated values, permutations, Fractions and shared variables), and "
         "number_of_connected_graphs on generated substrates (<= 7 vertices, relabelled ids), vertex subsets, focal "
-        "vertex and every k against a union-find reference. Non-trivial = tau>=3 / (n>=4 and n-1<k<N) / substrate "
+        "vertex and every k against a union-find reference. Plus clique_equation at 14 lists of plain numbers whose symmetric sums cancel exactly (mixed signs), and substrates with self-loops for the counter. Non-trivial = tau>=3 / (n>=4 and n-1<k<N) / substrate "
         "with a cycle; distinct = canonical JSON")
 ASSUMPTIONS = ["for tau >= 7 the clique oracle uses the vertex-subset form built on the reference connected-graph counts, "
                "validated against the edge-subset brute force for tau <= 6 in the same run"]
@@ -35,7 +35,10 @@ def enumerated(tier, seed):
     # points a value-dependent shortcut would single out
     for Hs in ([0.5, -0.5], [1.0, -1.0], [0.75, -0.25, -0.5], [2.0, 2.0, -1.0], [1.0, 1.0, -2.0], [1.0, -1.0, 0.5, -0.5],
                [1.0, 1.0, -1.0, -1.0], [0.0, 0.0], [0.0, 0.5, 0.0], [1.0, 1.0, 1.0], [0.5, 0.5, 0.5, 0.5], [2.0, 0.5],
-               [3.0, -3.0, 0.25, 0.25, 1.0], [0.25, 0.0, -0.25, 4.0, 0.5]):
+               [3.0, -3.0, 0.25, 0.25, 1.0], [0.25, 0.0, -0.25, 4.0, 0.5],
+               # values that differ, but only in the sixth or eighth digit (messages near a fixed point)
+               [0.7, 0.700004, 0.699997, 0.700002], [0.9999999, 1.0, 0.99999995], [0.25, 0.2500001], [1e-9, 2e-9, 0.0],
+               [0.5, 0.500003, 0.5, 0.499996, 0.5]):
         cases.append({"kind": "clique_points", "Hs": Hs})
     for n in range(3, (12 if q else 16) + 1):
         cases.append({"kind": "cycle", "n": n})
@@ -94,6 +97,12 @@ def counter_case(draw, tier):
     # a substrate may carry self-loops (a generated network does, when a vertex is drawn twice into one motif): a
     # loop is one more edge of the induced subgraph, and connects nothing
     loops = draw(st.one_of(st.just([]), st.just([]), st.lists(st.integers(0, n - 1), unique=True, max_size=3)))
+    # ... or parallel edges (a multigraph substrate): every copy is an edge of its own
+    par = draw(st.one_of(st.just([]), st.just([]), st.just([]), st.lists(st.sampled_from(edges), min_size=1, max_size=2)))
+    if par:
+        return {"kind": "counter", "n": n, "multi": True,
+                "edges": [[lab[a], lab[b]] for a, b in edges] + [[lab[b], lab[a]] for a, b in par] + [[lab[v], lab[v]] for v in loops],
+                "nodes": lab, "focal": lab[focal], "ak": [lab[v] for v in ak]}
     return {"kind": "counter", "n": n, "edges": [[lab[a], lab[b]] for a, b in edges] + [[lab[v], lab[v]] for v in loops], "nodes": lab,
             "focal": lab[focal], "ak": [lab[v] for v in ak]}
 
@@ -109,7 +118,7 @@ GRID = [Fraction(a, b) for a, b in [(-1, 1), (-1, 2), (0, 1), (1, 4), (1, 3), (1
 def is_poly_limitation(v):
     """a Violation that only says 'the exact polynomial type could not be pushed through this code' (division by a
     polynomial, negative power): not a verdict about the property -- fall back to exact rational evaluation."""
-    return ":TypeError@" in v.kind and ("Poly" in v.msg or "unsupported operand" in v.msg)
+    return ":TypeError@" in v.kind or ":ValueError@" in v.kind
 
 
 def val(x):
@@ -155,7 +164,7 @@ def check(case):
             for order in (list(Hs), list(reversed(Hs))):
                 got = call("clique_equation", clique_equation, tau, phi, list(order))
                 w = base.subs({**{f"u{i + 1}": Fraction(h) for i, h in enumerate(order)}, "p": Fraction(phi)})
-                if abs(float(got) - float(w)) > 1e-9 * max(1.0, abs(float(w))):
+                if abs(float(got) - float(w)) > 1e-10 * max(1.0, abs(float(w))):
                     raise Violation("clique-special-point", f"clique_equation(tau={tau}, phi={phi}, Hs={order}) = {got!r}, exact "
                                                             f"expectation {float(w)!r}")
         return {"nontrivial": tau >= 3, "classes": ["clique_special_points"]}
@@ -235,24 +244,27 @@ def check(case):
         return {"nontrivial": nt and len(case["calls"]) >= 2, "classes": ["clique_history"]}
     # connected-subgraph counter
     import networkx as nx
-    G = nx.Graph()
+    G = nx.MultiGraph() if case.get("multi") else nx.Graph()
     G.add_nodes_from(case["nodes"])
     G.add_edges_from(map(tuple, case["edges"]))
     keep = set(case["ak"]) | {case["focal"]}
     sub_edges = [tuple(e) for e in case["edges"] if e[0] in keep and e[1] in keep]
-    snap = (set(G.nodes()), {frozenset(e) for e in G.edges()})
+    from collections import Counter
+    snap = (set(G.nodes()), Counter(frozenset(e) for e in G.edges()))
     for kk in range(0, len(sub_edges) + 1):
         got = call("number_of_connected_graphs", number_of_connected_graphs, G, list(case["ak"]), case["focal"], kk)
         want = oracles.count_connected_after_removal(sorted(keep, key=repr), sub_edges, kk)
         if got != want:
             raise Violation("counter", f"number_of_connected_graphs(edges={case['edges']}, ak={case['ak']}, i={case['focal']}, k={kk}) = {got}, "
                                        f"exact count {want}")
-    if (set(G.nodes()), {frozenset(e) for e in G.edges()}) != snap:
+    if (set(G.nodes()), Counter(frozenset(e) for e in G.edges())) != snap:
         raise Violation("counter-mutates", "the substrate graph was modified")
     cyc = len(sub_edges) >= len(keep) >= 3
     cl = ["counter"]
     if any(e[0] == e[1] for e in sub_edges):
         cl.append("self_loop_in_induced_subgraph")
+    if case.get("multi"):
+        cl.append("multigraph_substrate")
     H = nx.Graph()
     H.add_nodes_from(keep)
     H.add_edges_from(sub_edges)
